@@ -398,6 +398,28 @@ def h_interp_falsy(e):
     e.nontriv()
 
 
+def h_interp_plain(e):
+    """%% is a literal percent sign also in a value that contains no %(name)s reference; a quoted entry of a list option in a file is one entry"""
+    cfg = _config()
+    x = _letters(e, 'x', 1)
+    cl = e.bool('cli')
+    files = [{'document': [('title', api.cat(['100%% ', x]))], 'html5': [('extra-css', '"my styles/p v.css" plain.css')], 'files': [('bad-chars-sub', '%%')]}]
+    argv = ['--title', '50%% off'] if cl else []
+    try:
+        _load(e, cfg, files, argv)
+        title = cfg['document']['title']
+        css = cfg['html5']['extra-css']
+        sub = cfg['files']['bad-chars-sub']
+    except (ValueError, TypeError, KeyError, AttributeError) as ex:
+        e.fail_exception(ex)
+        return
+    e.observe([title, list(css), sub])
+    e.check(eq(title, '50% off' if cl else api.cat(['100% ', x])), 'a %% in a value without references must read back as one percent sign', 'interpolation:plain')
+    e.check(eq(sub, '%'), 'a value that is just %% reads back as %', 'interpolation:plain')
+    e.check(len(css) >= 2 and list(css)[-2:] == ['my styles/p v.css', 'plain.css'], 'a quoted list entry in a file is one entry: %r' % (list(css),), 'list:quoted')
+    e.nontriv()
+
+
 BOOLS = _bool_opts()
 
 
@@ -417,4 +439,5 @@ def jobs(tier, seed):
         J.append(dict(harness='h_dict', params=dict(which=w), label='dict %s' % w))
     J.append(dict(harness='h_interp', params={}, label='interpolation'))
     J.append(dict(harness='h_interp_falsy', params={}, label='interpolation of falsy values'))
+    J.append(dict(harness='h_interp_plain', params={}, label='percent signs without references, quoted list entries'))
     return J
